@@ -297,6 +297,9 @@ func Supervise(self string, chk *Check, tier string, seed int64) int {
 	for name, m := range ntAll {
 		if t := total.Spaces[name]; t != nil {
 			t.Nontrivial = int64(len(m))
+			for _, r := range results {
+				t.Nontrivial += r.NTByIndex[name]
+			}
 		}
 	}
 
